@@ -1,5 +1,6 @@
 import HioModel.Store.Io
 /-! # Store lemmas 4: what every IoSuber / IoSetSuber method does to the abstraction, under the guard -/
+set_option linter.unusedSimpArgs false
 namespace Hio.Store
 
 def IonsBelow (n : Nat) (db : Db) : Prop := ∀ e ∈ db, ∀ k i, i < 16 ^ W → e.1 = suffix k i → i < n
@@ -61,7 +62,7 @@ theorem map_val_toHit (l : Db) : (l.map toHit).map (·.val) = l.map (·.2) := by
 
 theorem getIoVals_spec {db : Db} (hinv : Inv db) {k : Bytes} (hnc : NoChild k db) :
     getIoVals db k = .ok (absIo db k) := by
-  simp [getIoVals, scanKey_eq hinv hnc, map_val_toHit, absIo]
+  simp only [getIoVals, scanKey_eq hinv hnc, map_val_toHit]; rfl
 
 theorem cntIoVals_spec {db : Db} (hinv : Inv db) {k : Bytes} (hnc : NoChild k db) :
     cntIoVals db k = .ok (absIo db k).length := by
